@@ -1,4 +1,5 @@
 import QProofs.C06
+import QGen.C06
 import QProofs.Psd
 /-!
 # C06 — property theorems: composition implements quantum mechanics and is associative
@@ -290,8 +291,8 @@ variable {n : Nat} [NeZero n]
 /-- C06 "a measurement process on a state gives each outcome's probability together with the normalised
 post-measurement state" (`_compose_qoperations_MProcess_State_for_States`), generic regime = no outcome is
 truncated (`weight·p_x > eps_zero ≥ 0` for all x): probabilities are `weight·sd·(HS_x ρ)₀` and post states are
-`HS_x ρ / p_x`. Partial: when some outcome *is* truncated the surviving probabilities are renormalised (the post
-states stay normalised, `post_states_normalised`). -/
+`HS_x ρ / p_x`. Partial: the no-truncation regime only; every branch is stated exactly in `mprocess_state_exact`
+(with `truncated_probs_sum`, `truncated_weighted_state`, `post_states_normalised`). -/
 theorem mprocess_state_partial (sd eps : Rat) (hss : List (Mat Rat n n)) (rho : Vec Rat n) (w : Rat)
     (heps : 0 ≤ eps) (hno : ∀ hs ∈ hss, ¬ w * (sd * (hs.mulVec rho).get 0) ≤ eps) :
     forStates sd eps hss rho w =
@@ -689,6 +690,174 @@ example : ∀ st ∈ (forStates (1 : Rat) eps8 [(#v[#v[1/10]] : Mat Rat 1 1), #v
     st = Vec.zero ∨ TraceOne (1 : Rat) st :=
   post_states_normalised _ _ _ _ _
 
+
+/-! ### the `eps_zero` branch stated exactly; further associativity triples -/
+section exactbranch
+variable {n : Nat} [NeZero n]
+
+/-- raw probability of an outcome map on `ρ`: `sd·(HS ρ)₀` -/
+def rawP (sd : Rat) (rho : Vec Rat n) (hs : Mat Rat n n) : Rat := sd * (hs.mulVec rho).get 0
+
+/-- probability kept after the `eps_zero` test: `0` when `weight·p ≤ eps_zero` -/
+def keptP (sd eps w : Rat) (rho : Vec Rat n) (hs : Mat Rat n n) : Rat :=
+  if w * rawP sd rho hs ≤ eps then 0 else rawP sd rho hs
+
+/-- C06 "probability together with the normalised post-measurement state", **every branch** of
+`_compose_qoperations_MProcess_State_for_States` stated exactly: with `p̃_x = 0` if `weight·p_x ≤ eps_zero` else
+`p_x = sd·(HS_x ρ)₀`, `S = Σ_x p̃_x` and `T` = "some outcome was truncated and `S ≠ 0`":
+the post state of outcome `x` is `0` if `p̃_x = 0` and `HS_x ρ / p̃_x` otherwise, and its reported probability is
+`weight·p̃_x / S` if `T` and `weight·p̃_x` otherwise. No hypothesis on the inputs. -/
+theorem mprocess_state_exact (sd eps : Rat) (hss : List (Mat Rat n n)) (rho : Vec Rat n) (w : Rat) :
+    forStates sd eps hss rho w =
+      (hss.map fun hs => if keptP sd eps w rho hs = 0 then Vec.zero
+                          else vdiv (hs.mulVec rho) (keptP sd eps w rho hs),
+       (if (hss.any fun h => decide (w * rawP sd rho h ≤ eps)) &&
+              !decide (lsum (hss.map (keptP sd eps w rho)) = 0)
+          then (hss.map (keptP sd eps w rho)).map (· / lsum (hss.map (keptP sd eps w rho)))
+          else hss.map (keptP sd eps w rho)).map fun p => w * p) := by
+  unfold forStates
+  simp only [List.map_map, zip_map_same, Function.comp_def, List.any_map]
+  rfl
+
+/-- consequence for the truncation branch: if some outcome is truncated and the kept probabilities do not all
+vanish, the reported probabilities sum to exactly the incoming weight (the conditional distribution is renormalised) -/
+theorem truncated_probs_sum (sd eps : Rat) (hss : List (Mat Rat n n)) (rho : Vec Rat n) (w : Rat)
+    (ht : (hss.any fun h => decide (w * rawP sd rho h ≤ eps)) = true)
+    (hS : lsum (hss.map (keptP sd eps w rho)) ≠ 0) :
+    lsum (forStates sd eps hss rho w).2 = w := by
+  rw [mprocess_state_exact]
+  simp only [ht, hS, decide_false, Bool.not_false, Bool.and_self, if_true]
+  have h2 := lsum_map_mul_left w ((hss.map (keptP sd eps w rho)).map (· / lsum (hss.map (keptP sd eps w rho)))) id
+  simp only [id, List.map_id] at h2
+  rw [h2, lsum_map_div, div_self hS, mul_one]
+
+omit [NeZero n] in
+/-- … and the unnormalised state `p·ρ` the ensemble stores for a kept outcome is the Kraus-level state rescaled by
+the common factor `1/S`: `(weight·p̃_x/S)·(HS_x ρ / p̃_x) = (weight/S)·HS_x ρ`. -/
+theorem truncated_weighted_state (p S w : Rat) (r : Vec Rat n) (hp : p ≠ 0) :
+    Vec.smul (w * (p / S)) (vdiv r p) = Vec.smul (w / S) r := by
+  apply Vec.ext'; intro i
+  simp only [Vec.smul, vdiv, Vec.get_ofFn]
+  field_simp
+
+/-- C06 associativity, exact: `(G₁∘G₂)∘ρ = G₁∘(G₂∘ρ)` as model values. -/
+theorem assoc_gate_gate_state (c : Cfg) (s : Nat) (A B : Mat Rat n n) (rho : Vec Rat n) :
+    (compose c (.gate s A) (.gate s B)).bind (fun x => compose c x (.state s rho))
+      = (compose c (.gate s B) (.state s rho)).bind (fun y => compose c (.gate s A) y) := by
+  simp only [compose, ne_eq, not_true_eq_false, if_false, Except.bind, mulVec_mulVec]
+
+/-- C06 associativity, exact, with layout: `(Π∘G)∘M = Π∘(G∘M)` as model values (well-formed measurement process). -/
+theorem assoc_povm_gate_mprocess (c : Cfg) (s : Nat) (nums shape : List Nat) (eps : Rat)
+    (vecs : List (Vec Rat n)) (G : Mat Rat n n) (hss : List (Mat Rat n n))
+    (hsz : hss.length = QM.C16.prod shape) :
+    (compose c (.povm s nums vecs) (.gate s G)).bind (fun x => compose c x (.mprocess s shape eps hss))
+      = (compose c (.gate s G) (.mprocess s shape eps hss)).bind (fun y => compose c (.povm s nums vecs) y) := by
+  have h : povmMProcess (povmGate vecs G) hss = povmMProcess vecs (hss.map fun hs => G.mul hs) := by
+    simp only [povmGate, povmMProcess, List.flatMap_map, List.map_map]
+    congr 1; funext hs; apply List.map_congr_left; intro v _
+    simp only [Function.comp, transpose_mulVec_eq_vecMat]
+    apply Vec.toV_injective
+    simp [toV_vecMat, Matrix.vecMul_vecMul]
+  simp only [compose, ne_eq, not_true_eq_false, if_false, Except.bind, mkMProcess, List.length_map, hsz, h]
+
+/-- C06 associativity `(Π∘M)∘ρ = Π∘(M∘ρ)` at the level of the raw Born weights: the statistics of the
+Heisenberg-picture POVM `Π∘M` on `ρ` are, block by block (measurement-process outcome slow), `p_x` times the raw
+Born weights of `Π` on the normalised post state `HS_x ρ / p_x` — exactly the blocks `Povm∘StateEnsemble` forms
+from the ensemble `M∘ρ`. Partial: outcomes with `p_x = 0` are excluded (there `M∘ρ` stores the zero state). -/
+theorem assoc_povm_mprocess_state_partial (sd : Rat) (vecs : List (Vec Rat n)) (hss : List (Mat Rat n n))
+    (rho : Vec Rat n) (hne : ∀ hs ∈ hss, sd * (hs.mulVec rho).get 0 ≠ 0) :
+    bornRaw (povmMProcess vecs hss) rho
+      = hss.flatMap fun hs =>
+          (bornRaw vecs (vdiv (hs.mulVec rho) (sd * (hs.mulVec rho).get 0))).map
+            fun q => sd * (hs.mulVec rho).get 0 * q := by
+  rw [heisenberg_mprocess]
+  simp only [List.flatMap_def]
+  congr 1
+  apply List.map_congr_left
+  intro hs hh
+  simp only [bornRaw, List.map_map]
+  apply List.map_congr_left
+  intro v _
+  simp only [Function.comp, Vec.dot, vdiv, Vec.get_ofFn, fsum_eq_sum, Finset.mul_sum]
+  apply Finset.sum_congr rfl; intro i _
+  have := hne hs hh
+  field_simp
+  rw [mul_assoc (v.get i * (hs.mulVec rho).get i), mul_div_assoc, div_self this, mul_one]
+
+end exactbranch
+
+/-- non-vacuity: an instance where the truncation branch is taken and the kept probabilities do not vanish
+(weight 2·10⁻⁸, conditional probabilities 1/10 and 9/10): the reported probabilities sum to the weight -/
+example : lsum (forStates (1 : Rat) eps8 [(#v[#v[1/10]] : Mat Rat 1 1), #v[#v[9/10]]] #v[1] (2 / 100000000)).2
+    = 2 / 100000000 := by
+  decide +kernel
+
+/-- non-vacuity of `assoc_povm_mprocess_state_partial`: both outcome probabilities are non-zero -/
+example : ∀ hs ∈ [(#v[#v[1/4, 1/8], #v[0, 1/2]] : Mat Rat 2 2), #v[#v[3/4, -1/8], #v[1/3, 0]]],
+    (2 : Rat) * (Mat.mulVec hs (#v[1/2, 1/5] : Vec Rat 2)).get 0 ≠ 0 := by
+  decide +kernel
+
+/-! ### tie to the source: the model equals the definitions regenerated from operators.py on every run -/
+section source
+variable {n : Nat} [NeZero n]
+
+/-- `MProcess∘MProcess` of the model is the loop nest, `@` operand order and shape operand order that
+`harness/c06_translate.py` reads off the current source (QGen/C06.lean); reverting the D6 repair (`hs2 @ hs1`,
+`shape1 + shape2`) or swapping the loops makes this proof fail. -/
+theorem compose_mprocess_mprocess_matches_source (c : Cfg) (s : Nat) (sh1 sh2 : List Nat) (e1 e2 : Rat)
+    (h1 h2 : List (Mat Rat n n)) :
+    mpMp h1 h2 = QGen.C06.mmCompose Mat.mul h1 h2 ∧
+    compose c (.mprocess s sh1 e1 h1) (.mprocess s sh2 e2 h2)
+      = mkMProcess s (QGen.C06.mmShape sh1 sh2) eps8 (QGen.C06.mmCompose Mat.mul h1 h2) := by
+  refine ⟨rfl, ?_⟩
+  simp [compose, QGen.C06.mmShape, QGen.C06.mmCompose, mpMp]
+
+/-- `Povm∘MProcess` of the model is the generated loop nest with `hs.T @ vec` (seeded change C06-1 breaks this) -/
+theorem povmMProcess_matches_source (vecs : List (Vec Rat n)) (hss : List (Mat Rat n n)) :
+    povmMProcess vecs hss = QGen.C06.pmCompose (fun hs v => hs.transpose.mulVec v) vecs hss := rfl
+
+/-- `_compose_qoperations_MProcess_State_for_States`: the model's truncation test is the generated one and the post
+states are divided by the probabilities taken before the renormalisation, as the source does (reverting the D13
+repair makes `postStatesUseRaw` false and this proof fail). -/
+theorem forStates_matches_source (sd eps w : Rat) (rho : Vec Rat n) (hs : Mat Rat n n) :
+    keptP sd eps w rho hs = (if QGen.C06.truncated w (rawP sd rho hs) eps then 0 else rawP sd rho hs) ∧
+      QGen.C06.postStatesUseRaw = true := by
+  refine ⟨?_, rfl⟩
+  simp [keptP, QGen.C06.truncated]
+
+/-- the shape reported by `MProcess∘StateEnsemble` is the generated `elem2.prob_dist.shape + elem1.shape`
+(seeded change C06-2 breaks this) -/
+theorem mpEnsemble_shape_matches_source (c : Cfg) (sys : Nat) (shape : List Nat) (eps : Rat)
+    (hss : List (Mat Rat n n)) (states : List (Vec Rat n)) (d : Dist) (epsE : Rat)
+    (s' : Nat) (sts : List (Vec Rat n)) (d' : Dist) (e' : Rat)
+    (h : mpEnsemble c sys shape eps hss states d epsE = .ok (.ensemble s' sts d' e')) :
+    d'.shape = QGen.C06.meShape d.shape shape := by
+  unfold mpEnsemble at h
+  simp only [bind, Except.bind, pure, Except.pure, liftDist, throw, throwThe, MonadExceptOf.throw] at h
+  split at h
+  · cases h
+  · split at h
+    · cases h
+    · rename_i dd hd
+      split at hd
+      · rename_i d0 hc
+        injection hd with hd; subst hd
+        have hd' : d' = d0 := by
+          by_cases hz : d.isZero = true <;>
+            simp only [hz, if_true, if_false, Bool.false_eq_true] at h <;>
+            (split at h <;> cases h <;> rfl)
+        rw [hd']
+        exact ctor_shape _ _ _ _ hc
+      · cases hd
+
+end source
+
+/-- non-vacuity of `mpEnsemble_shape_matches_source`: a concrete `MProcess∘StateEnsemble` returns an ensemble -/
+example : (match mpEnsemble { sd := 1, atol := 0 } 0 [2] eps8 [(#v[#v[1/3]] : Mat Rat 1 1), #v[#v[2/3]]] [#v[1]]
+      ⟨[1], [1], false⟩ eps8 with
+    | .ok (.ensemble _ _ d _) => d.shape == [1, 2]
+    | _ => false) = true := by
+  decide +kernel
 
 /-! ### Born probabilities are non-negative -/
 section born
